@@ -114,12 +114,12 @@ Theorem T_C15_round : forall P R ns, rep3 R -> -999999999 <= ns <= 999999999 -> 
 Proof. exact dround_rep3. Qed.
 Print Assumptions T_C15_round.
 
-(* ---- the calendar step of To(string) -> time_point (year guard, era guard, dayInEra guard, checked
-        int64 / unsigned arithmetic) never overflows and equals days_from_civil for every date whose day
-        number fits int64 with the 719468 days of head room the era guard needs ---- *)
+(* ---- the calendar step of To(string) -> time_point (year guard, shifted era / day of era with the two range guards,
+        checked int64 / unsigned arithmetic) never overflows and equals days_from_civil for every date whose day
+        number fits int64 ---- *)
 Theorem T_C15_date_steps : forall A y m d (K : Z -> outcome A),
   -30000000000000000 <= y <= 30000000000000000 -> 1 <= m <= 12 -> 1 <= d <= 31 ->
-  -9223372036854775808 <= days_from_civil y m d <= 9223372036854775807 - 719468 ->
+  -9223372036854775808 <= days_from_civil y m d <= 9223372036854775807 ->
   date_steps y m d K = K (days_from_civil y m d).
 Proof. exact c15_date_steps. Qed.
 Print Assumptions T_C15_date_steps.
@@ -150,22 +150,25 @@ Print Assumptions T_C15_open_classes.
         Full strength, for R int64 / int32 and every precision:
           forall s,  (forall f, tf_wf f -> s = tf_render f -> tp_parse P R s = tp_expected P R f)  /\
                      (~ tp_grammar s -> tp_parse P R s = Err InvalidArgument).
-        FALSE twice: K41 (second half: texts outside the grammar are accepted) and the parse half of K35 (first
-        half, time_point<days,int64> only). ---- *)
-Theorem T_C15_tp_classify_refuted :
-  (~ tp_grammar text_K41 /\ tp_parse Ps I64 text_K41 = Ok 1672531200) /\
-  (tf_wf fields_K35 /\ k35_parse Pd I64 fields_K35 = true /\
-   tp_parse Pd I64 (tf_render fields_K35) = Err OutOfRange /\ tp_expected Pd I64 fields_K35 = Ok 9223372036854775807).
-Proof. exact (conj c15_tp_classify_refuted c15_tp_classify_k35). Qed.
+        FALSE because of K41 (second half: texts outside the grammar are accepted); the first half holds at full
+        strength since the repair of K35b in /repo 2854d54. ---- *)
+Theorem T_C15_tp_classify_refuted : ~ tp_grammar text_K41 /\ tp_parse Ps I64 text_K41 = Ok 1672531200.
+Proof. exact c15_tp_classify_refuted. Qed.
 Print Assumptions T_C15_tp_classify_refuted.
 
-(* first half, outside the class k35_parse (a date in the last 719468 days of time_point<days,int64>): on EVERY
-   text of the documented grammar the result is exactly the specified classification — the denoted count, or
-   out_of_range; in particular never invalid_argument, never UB, never a wrapped or truncated count *)
-Theorem T_C15_tp_classify_outside : forall P R f, c14_rep P R -> tf_wf f -> k35_parse P R f = false ->
+(* first half: on EVERY text of the documented grammar the result is exactly the specified classification — the
+   denoted count, or out_of_range; in particular never invalid_argument, never UB, never a wrapped or truncated
+   count *)
+Theorem T_C15_tp_classify_grammar : forall P R f, c14_rep P R -> tf_wf f ->
   tp_parse P R (tf_render f) = tp_expected P R f.
 Proof. exact tp_classify_grammar. Qed.
-Print Assumptions T_C15_tp_classify_outside.
+Print Assumptions T_C15_tp_classify_grammar.
+
+(* regression, K35b (repaired): the documented text of the last day of time_point<days,int64> *)
+Example T_C15_K35b_repaired : tf_wf fields_K35 /\ tf_render fields_K35 = text_K35 /\
+  tp_parse Pd I64 (tf_render fields_K35) = Ok 9223372036854775807 /\ tp_expected Pd I64 fields_K35 = Ok 9223372036854775807.
+Proof. exact c15_tp_classify_k35. Qed.
+Print Assumptions T_C15_K35b_repaired.
 
 (* ---- T_C15_tp_classify, second half (texts OUTSIDE the grammar).  tp_lenient (ChronoReject.v) describes, without
         the parser, the texts ParseIsoUtc lets through (the class of K41 together with the grammar): optional '+',
@@ -359,7 +362,7 @@ Print Assumptions T_C15_wide_total.
      uint64 targets: the grammar half is T_C15_dur_classify_u64 / T_C15_dur_neg_u64; the totality theorem
      T_C15_dur_total is stated for int64 / int32 only.
 
-   Representation domains: int8_t targets are outside T_C15_round, T_C15_tp_classify_outside, T_C15_dur_classify_outside and the two _total theorems (K48); uint64
+   Representation domains: int8_t targets are outside T_C15_round, T_C15_tp_classify_grammar, T_C15_dur_classify_outside and the two _total theorems (K48); uint64
    time points (the parser computes the day number in int64, so uint64 day counts above 2^63 are reported
    out_of_range): correspondence only.  tm / CRawTime: Properties_C14 (T_C14_tm_roundtrip, T_C14_tm_print_total, T_C14_raw_time); wide OUTPUT
    strings (out.append(buf, pos) of the ASCII buffer) are not modelled.
